@@ -783,7 +783,7 @@ def model(ctx):
     ctx.model_must_hold('MC_C14', cfg, env={'OUT_FILE': out_file}, timeout=3000, workers=8, label='FindImpl => FindOK')
     # regression model (DESIGN section 7 #16): the 1-D finder before fix 6d9cf06 must be refuted by TLC on meshes
     # with several components; the current algorithm is part of the main configuration
-    old = ctx.tlc_model('MC_C14', 'MC_C14_line_prerepair.cfg', env={'OUT_FILE': ''}, timeout=600, workers=2,
+    old = ctx.tlc_model('MC_C14', 'MC_C14_line_prerepair.cfg', env={'OUT_FILE': ''}, timeout=3000, workers=2,
                         label='regression model: 1-D element finder before fix 6d9cf06')
     ctx.notes['pre_repair_line_finder_refuted_by_tlc'] = bool(old['violated'])
     if not old['violated']:
